@@ -23,6 +23,7 @@ for d in sorted(glob.glob(src + '/*.diff')):
     if subprocess.run(['git', '-C', '/repo', 'apply', d]).returncode != 0:
         print(name, 'does not apply'); continue
     res = {}
+    saved = {p: open('/verif/evidence/%s.json' % p).read() for p in props if os.path.exists('/verif/evidence/%s.json' % p)}
     try:
         for p in props:
             if files[p] & touched:
@@ -30,6 +31,8 @@ for d in sorted(glob.glob(src + '/*.diff')):
                 res[p] = {'exit': r.returncode, 'lines': [l for l in r.stdout.splitlines() if l.startswith(('VIOLATION', 'UNDECIDED', 'FAILED'))][:4]}
     finally:
         subprocess.check_call(['git', '-C', '/repo', 'checkout', '--', '.'])
+        for p, t in saved.items():
+            open('/verif/evidence/%s.json' % p, 'w').write(t)
     out[name] = {'touched': sorted(touched), 'results': res}
     print(name, sorted(touched), {p: v['exit'] for p, v in res.items()})
     for p, v in res.items():
